@@ -703,6 +703,74 @@ func watchLifecycles(t *testing.T, e *env, res *result, r *rand.Rand, name strin
 	}
 }
 
+// overlappingWatches: two (three) watches on the same key through the same handle are
+// independent: each receives every change, whatever the others do.
+func overlappingWatches(t *testing.T, e *env, res *result, r *rand.Rand, name string) {
+	kv := e.bucketH(t, name+"_ov", time.Hour, 64)
+	key := "leader"
+	nW := 2 + r.IntN(2)
+	var ws []leader.Watcher
+	var chans []<-chan leader.Entry
+	for i := 0; i < nW; i++ {
+		w, err := kv.Watch(key)
+		if err != nil {
+			t.Fatalf("watch: %v", err)
+		}
+		ws = append(ws, w)
+		chans = append(chans, w.Updates())
+	}
+	n := 3 + r.IntN(5)
+	var rev uint64
+	var want []string
+	for i := 0; i < n; i++ {
+		v := fmt.Sprintf("v%d", i)
+		if rev == 0 {
+			rev, _ = kv.Create(key, []byte(v))
+		} else {
+			rev, _ = kv.Update(key, []byte(v), rev)
+		}
+		want = append(want, fmt.Sprintf("%s@%d", v, rev))
+	}
+	stopFirst := r.IntN(2) == 0
+	if stopFirst {
+		ws[nW-1].Stop() // the last-opened one goes away early; the others must not notice
+	}
+	for i := 0; i < nW; i++ {
+		if stopFirst && i == nW-1 {
+			continue
+		}
+		var got []string
+		closed := false
+		deadline := time.After(3 * time.Second)
+	recv:
+		for len(got) < n {
+			select {
+			case en, ok := <-chans[i]:
+				if !ok {
+					closed = true
+					break recv
+				}
+				if en == nil {
+					continue // end-of-initial-state marker
+				}
+				got = append(got, fmt.Sprintf("%s@%d", en.Value(), en.Revision()))
+			case <-deadline:
+				break recv
+			}
+		}
+		res.Evals++
+		res.obs("c14.overlapping_watches", 1)
+		if closed {
+			res.viol("C14", "watch-independent", "overlapping-watch-closed", fmt.Sprintf("watch %d of %d on one key: its channel was closed although it was never stopped (got %v)", i+1, nW, got))
+		} else if strings.Join(got, " ") != strings.Join(want, " ") {
+			res.viol("C14", "watch-independent", "overlapping-watch-misses-events", fmt.Sprintf("watch %d of %d on one key: got %v want %v", i+1, nW, got, want))
+		}
+	}
+	for i := range ws {
+		ws[i].Stop()
+	}
+}
+
 func batchWatch(t *testing.T, e *env, res *result, r *rand.Rand, k int) {
 	nRuns := envInt("VERIF_BATCH", 5)
 	for ri := 0; ri < nRuns; ri++ {
@@ -739,6 +807,8 @@ func batchWatch(t *testing.T, e *env, res *result, r *rand.Rand, k int) {
 		// unread events - none of them may leave a goroutine of the adapter behind
 		if ri%2 == 0 {
 			watchLifecycles(t, e, res, r, name)
+		} else {
+			overlappingWatches(t, e, res, r, name)
 		}
 		g0 := adapterGoroutines()
 		wt, err := kv.Watch(key)
